@@ -700,9 +700,24 @@ pub fn scn_big(out: &mut TraceOut, r: &mut R, n: u32, nops: usize) {
     }
     let Some(c) = s.cursor(true) else { return };
     let hi = base + n * step + 3;
+    // failed seeks followed by relative moves that leave the loaded block (their results are
+    // unspecified, their cost is not)
+    let be = |x: u32| x.to_be_bytes().to_vec();
+    for (target, fwd) in [(base + (n - 2) * step, false), (base + (n / 2) * step, true), (base + (n / 3) * step, false)] {
+        s.op(c, &Op::Ge(be(target)));
+        s.op(c, &Op::Ge(be(hi + 50)));
+        for _ in 0..200 {
+            s.op(c, if fwd { &Op::Next } else { &Op::Prev });
+        }
+        s.op(c, &Op::Eq(be(target)));
+        s.op(c, &Op::Le(be(base.saturating_sub(1))));
+        for _ in 0..120 {
+            s.op(c, if fwd { &Op::Prev } else { &Op::Next });
+        }
+    }
     let mut i = 0;
     while i < nops {
-        let q = |r: &mut R| r.gen_range(base.saturating_sub(2)..hi).to_be_bytes().to_vec();
+        let q = |r: &mut R| (if r.gen_ratio(1, 12) { hi + 7 } else { r.gen_range(base.saturating_sub(2)..hi) }).to_be_bytes().to_vec();
         let op = match r.gen_range(0..100) {
             0..=29 => Op::Next,
             30..=49 => Op::Prev,
